@@ -40,10 +40,17 @@ func vfClassify(q string) string {
 	return ""
 }
 
+// vfSlowSave > 0: every profile save takes that long (a remote database round trip); loads are unaffected
+var vfSlowSave time.Duration
+
 func (s *vfScheduler) hook(q string) {
 	s.mu.Lock()
 	on := s.enabled
+	slow := vfSlowSave
 	s.mu.Unlock()
+	if slow > 0 && vfClassify(q) == "save" {
+		time.Sleep(slow)
+	}
 	if !on {
 		return
 	}
